@@ -258,6 +258,50 @@ func runCrashProperty(t *rapid.T, pc crashProgCfg) {
 	})
 	acts[""] = func(t *rapid.T) {}
 	t.Repeat(acts)
+	// Directed tail (two programs in three): a file with a few blocks of data near the edge of the direct range
+	// and one block far out is cut to a size just below that data, which only the background shrinker can finish.
+	// The crash points between "the SETATTR is durable" and "the shrinker is done" give images of a file that is
+	// still shrinking; every such image gets the post-crash workload (a WRITE that starts inside the file and ends
+	// beyond its end in the middle of the next block, growth, reads).
+	if rapid.IntRange(0, 2).Draw(t, "bigcut_tail") > 0 && x.Budget >= 30 {
+		b0 := uint64(pick(t, []int{1, 6, 7, 8, 20}, "tail_block"))
+		far := uint64(rapid.IntRange(560, 1200).Draw(t, "tail_far"))
+		newsz := (b0+1)*BlockSize + uint64(pick(t, []int{-7, -1000, 0, 100, 4000}, "tail_in"))
+		if in := pick(t, []int{0, 1}, "tail_keep"); in == 1 {
+			newsz += BlockSize
+		}
+		name := "zz_tail"
+		var f *MNode
+		steps := []func() error{
+			func() error { return x.Create(LiveRef(x.M.Root), name) },
+			func() error {
+				f = x.M.Root.Children[name]
+				if f == nil {
+					return nil
+				}
+				return x.Write(LiveRef(f), b0*BlockSize, patternData(g.nextTag(), 3*BlockSize), 3*BlockSize, nt.FILE_SYNC)
+			},
+			func() error {
+				if f == nil {
+					return nil
+				}
+				return x.Write(LiveRef(f), far*BlockSize+5, patternData(g.nextTag(), 100), 100, pick(t, g.Cfg.Stable, "tail_stable"))
+			},
+			func() error {
+				if f == nil {
+					return nil
+				}
+				return x.Setattr(LiveRef(f), &newsz, false)
+			},
+		}
+		for _, st := range steps {
+			cr.Step(func() error { stepErr = st(); return nil })
+			if stepErr != nil {
+				failf(t, pc.Prop, detail(), "live run: %v", stepErr)
+			}
+		}
+		St.Class("programs_ending_with_a_cut_that_only_the_shrinker_can_finish")
+	}
 	// let background work finish so that its writes are part of the trace, then shut down cleanly
 	if err := x.call(func() { x.S.N.VerifWaitShrinkers(); x.S.Stop() }); err != nil {
 		failf(t, pc.Prop, detail(), "shutdown: %v", err)
